@@ -369,6 +369,11 @@ func DNSCaching(ttl time.Duration) func(*Attacker) {
 				// Pick a random IP from each IP family and dial each concurrently.
 				// The first that succeeds wins, the other gets canceled.
 
+				// LookupHost hands out the cache entry's own slice, which concurrent
+				// dials share: shuffle and compact a copy, or the cached address set
+				// shrinks to one address per family.
+				ips = append([]string(nil), ips...)
+
 				rng.Shuffle(len(ips), func(i, j int) { ips[i], ips[j] = ips[j], ips[i] })
 
 				ips = firstOfEachIPFamily(ips)
